@@ -99,4 +99,8 @@ def maskOccurences (rows : CRows) (L : Int) (alphabet : Nat) (refseq : String) (
       let cols := maskOccLoop rows refseq refs maxOcc (mr == .maj) (List.range L.toNat) rep0
       some (rows.zipIdx.map fun (r, j) => (r.1, cols.map fun col => col.getD j 0))
 
+/-- `MaskUnique(refseq, maskreplace)` is `MaskOccurences(refseq, 1, maskreplace)` -/
+def maskUnique (rows : CRows) (L : Int) (alphabet : Nat) (refseq : String) (mr : MaskRep) : Option CRows :=
+  maskOccurences rows L alphabet refseq 1 mr
+
 end Gv.Model
